@@ -130,7 +130,18 @@ def rule_MP2(rep, prog, k):
         rep.require(rid, good, w.loc, fn.name, "wait-flag-rmw-operand", "dispatch_block_wait: unexpected flag update %s %s" % (w.d["rmw"], hex(c) if c is not None else None),
                     sample={"rmw": w.d["rmw"], "operand": hex(c) if c is not None else None})
     rets = [i for i in fn.all_insts() if i.op == "ret"]
-    okr = bool(gw) and all(root_ptr(fn, r.ops[0]) == ("i", gw[0].id) for r in rets)
+    okr = bool(gw)
+    if okr:
+        # every return carries the group wait's result: the value itself, or a constant it was found equal to on that path (`if (ret == 0) return 0;`)
+        for kind, inst, cx, path in paths.walk(fn, gw[0], lambda i: False):
+            if kind != "exit":
+                continue
+            if root_ptr(fn, cx.resolve(inst.ops[0])) == ("i", gw[0].id):
+                continue
+            v, g = cx.value(inst.ops[0]), cx.value(["i", gw[0].id])
+            if v is not None and g is not None and (v == g or {v, g} <= {paths.NULL, ("c", 0)}):
+                continue
+            okr = False
     rep.require(rid, okr, fn.file, fn.name, "wait-result", "dispatch_block_wait must return what dispatch_group_wait returned", sample={"rets": len(rets)})
     # WAITED only on success
     for w in writes:
